@@ -23,7 +23,7 @@ LEVEL_TEXT = (
     "replayed on the real store; each observation and the full visible + persisted content are "
     "compared with a persistent-dict model; states deduplicated on (mode, model, disk files, cache flags)"
 )
-LEVEL_NOTE = "bounded depth (quick 3, thorough 4); keys/values limited to the alphabet; trusted: the 40-line dict model"
+LEVEL_NOTE = "bounded depth (quick 3, thorough 5); keys/values limited to the alphabet; trusted: the 40-line dict model"
 FLOOR_NONTRIVIAL = 50
 
 K = [(10.0, 4), (10.0 * (1 + 2e-7), 4), (20.0, 5)]  # K1 lies within approx tolerance of K0
@@ -282,7 +282,7 @@ def evaluate(case):
 
 
 def run(ctx):
-    depth = 4 if ctx.thorough() else 3
+    depth = 5 if ctx.thorough() else 3
     ops = alphabet()
     hist.bfs(ctx, ops, evaluate, depth, max_states=None)
     ctx.rule = (
